@@ -119,6 +119,12 @@ func removeSourcePrecedence(rbacIxns []*rbacIntention, intentionDefaultAction in
 			// [j] is the thing to maybe NOT [i] from
 			if ixnSourceMatches(rbacIxns[i].Source, rbacIxns[j].Source) {
 				rbacIxns[j].NotSources = append(rbacIxns[j].NotSources, rbacIxns[i].Source)
+			} else if ixnSourceMatches(rbacIxns[j].Source, rbacIxns[i].Source) {
+				// [i] has higher precedence and its source covers every
+				// caller [j] names (a wildcard source on the exact
+				// destination outranks an exact source on a wildcard
+				// destination), so [j] can never decide.
+				rbacIxns[j].Skip = true
 			}
 		}
 		if rbacIxns[i].Action == intentionDefaultAction {
